@@ -10,10 +10,13 @@
     blocc/expression_integer/numeric/literal/boolean/variable/builtin/functor/item/member.cpp, member_set.cpp;
     blocc/value.cpp                      `readableInteger` (std::to_string), `readableNumeric` ("%.16g"),
                                          `readableLiteral`;
-    blocc/executable.cpp `Executable::unparse`, blocc/statement.cpp `unparse_next`, every statement_*.cpp `unparse`.
+    blocc/executable.cpp `Executable::unparse`, blocc/statement.cpp `unparse_next`, every statement_*.cpp `unparse`
+                                         (DOStatement::unparse writes `do ` + expression ALWAYS since 1a89173, also for an
+                                         expression statement that was written without the keyword: `t.concat(5);` is
+                                         saved as `do T.concat(5);`).
 
   Two renderings of the same tree are given: `unparseExpr` / `unparseProgram` (the bytes the C++ writes) and
-  `toksExpr` (the token sequence those bytes are meant to scan to). The parser theorems of Proofs/C12.lean are
+  `toksExpr` / `toksDo` (the token sequence those bytes are meant to scan to). The parser theorems of Proofs/C12.lean are
   stated on `toksExpr`; that `unparseExpr e` scans to `toksExpr e` is checked by evaluation in the driver on
   every case of the correspondence run (`lex=1`); it is not a theorem (see notes/NOTES-C12.md, "left unproved").
 -/
@@ -110,6 +113,10 @@ def dirText : PDir → Bytes
   | .asc => bytesOf "asc "
   | .desc => bytesOf "desc "
 
+/-- `Statement::KEYWORDS[STMT_DO]` (statement.h: `STMT_DO = 23`), read from the extracted keyword table: a
+changed table changes the text of a saved DO statement and breaks `doKeyword_eq` (Proofs/Lemmas/Parse.lean). -/
+def doKeyword : Bytes := bytesOf (Gen.stmtKeywords.getD 23 "")
+
 def paramText (p : Bytes × Bytes) : Bytes := if p.2.isEmpty then p.1 else p.1 ++ [58] ++ p.2
 
 mutual
@@ -126,7 +133,8 @@ mutual
     | .letn n ty nx => n ++ [58] ++ ty ++ unparseNext lvl nx
     | .print args => bytesOf "print" ++ (unparseArgs args).flatMap (fun a => 32 :: a)
     | .put args => bytesOf "put" ++ (unparseArgs args).flatMap (fun a => 32 :: a)
-    | .doS e => unparseExpr e
+    -- DOStatement::unparse: `Statement::KEYWORDS[keyword()]`, a blank, the expression (keyword always written)
+    | .doS e => doKeyword ++ [32] ++ unparseExpr e
     | .raise n => bytesOf "raise " ++ n
     | .ifS rules els =>
       unparseRules lvl true rules ++
@@ -236,5 +244,9 @@ mutual
     | [] => []
     | a :: as => toksExpr a :: toksArgs as
 end
+
+/-- The token sequence of a DO statement as `Executable::unparse` writes it: the keyword `do` (always
+written by `DOStatement::unparse`), the tokens of the expression, the separator `;`. -/
+def toksDo (e : PExpr) : List Tok := kw "do" :: (toksExpr e ++ [ch 59])
 
 end BlocV.Unparse
